@@ -41,7 +41,10 @@ CONSTANTS Impl,        \* "py" | "c_owned" | "c_pinned"
           MaxCalls,    \* lookups per thread
           MaxFrames    \* bound on frames ever created
 
-CallOuts == {"G", "A", "E", "B", "C1", "D", "F"}
+\* C3: code the Python _uncached_* runs AFTER it has read the data and before
+\* it returns (e.g. spec.subscribe() of a required specification, called by
+\* _subscribe): the window between computing an answer and storing it
+CallOuts == {"G", "A", "E", "B", "C1", "C3", "D", "F"}
 ForeignActs == {"none", "mutate", "raise", "nested", "nested_mutate",
                 "mutate_nested"}
 
